@@ -129,7 +129,7 @@ func projString(m map[string]string) string {
 
 func checkC20(r *kit.Run) {
 	r.Assumptions = []string{
-		"packages: 11 schema declarations (all, or all but one) and up to 2 (thorough 3) of 22 data declarations, in one file or split over two (Trim.tla)",
+		"packages: 14 schema declarations (all, or all but one) and up to 2 (thorough 3) of 22 data declarations, in one file or split over two (Trim.tla)",
 		"the evaluated configuration is compared per top-level field: JSON with defaults resolved when concrete, the printed final form when incomplete, ERROR when in error",
 	}
 	res, err := kit.RunTLC(kit.TLCOpts{Module: "Trim", CfgText: "INIT TablesInit\nNEXT Next\nCONSTANTS MaxData = 0 AllVariants = FALSE\n", Dump: true, Workers: 1, Timeout: 5 * time.Minute})
@@ -231,7 +231,8 @@ func checkC20(r *kit.Run) {
 	if err != nil {
 		r.Fatal("Trim dump: %v", err)
 	}
-	if canary == 0 || caught != canary {
+	if (canary == 0 && r.Violations() == 0) || caught != canary {
+		// (with violations reported the run may never reach a package that passes all steps)
 		r.Fatal("canary failed")
 	}
 	r.Set("traces_validated_against_impl", n)
